@@ -40,4 +40,9 @@ def run(ctx):
                 "the handles of a failed operation frees the terminal slots the retry needs.")
     eevent.check_gc_sweep_order(ctx, F, "oxidd_manager_index")
     eevent.check_gc_sweep_order(ctx, F, "oxidd_manager_pointer")
+    ctx.explain("E-FREELIST.handover: when a thread's session on a store ends, LocalStoreStateGuard::drop skips return_preallocated "
+                "only after inspecting all three thread-local cells (free list, partially used chunk, node-count delta); a "
+                "parked free list is otherwise lost when the next session zeroes the local state.")
+    nh = efreelist.check_guard_handover(ctx, F)
+    ctx.floor("E-FREELIST.handover", "session-end hand-over sites", nh, 1)
     ctx.not_decided = "validity of handles after failure, success on retry, panics other than AllocResult unwraps"
